@@ -4,10 +4,12 @@
    serialization/deserializer.go) and Model/SerAttrs.v (the attribute route: serializer.go:327-353, attributesinfo.go
    PositionalFromHash, objectvalue.go fillValueSlice).  Proofs: Proofs/SerAttrsProofs.v, Proofs/SerReentProofs.v
    (conversions that overlap on one Serializer object, Model/SerReent.v), Proofs/SerProofs.v (simulation serializer state / collector
-   state), Proofs/SerWfProofs.v (stream well-formedness), Proofs/SerDeserProofs.v (deserializer). *)
+   state), Proofs/SerWfProofs.v (stream well-formedness), Proofs/SerDeserProofs.v (deserializer).
+   Object instances (attributeSlice and the wrappers of Go structs): Model/SerStruct.v (objectvalue.go InitHash,
+   InitFromHash, setValues; attributesinfo.go PositionalFromHash), Proofs/SerStructProofs.v. *)
 From Coq Require Import ZArith NArith Bool List.
-From PcoreV Require Import Model.Base Model.Ser Model.SerAttrs Model.SerReent Proofs.SerProofs Proofs.SerWfProofs
-  Proofs.SerDeserProofs Proofs.SerAttrsProofs Proofs.SerReentProofs.
+From PcoreV Require Import Model.Base Model.Ser Model.SerAttrs Model.SerReent Model.SerStruct Proofs.SerProofs Proofs.SerWfProofs
+  Proofs.SerDeserProofs Proofs.SerAttrsProofs Proofs.SerReentProofs Proofs.SerStructProofs.
 Import ListNotations.
 
 (* ---- the stream is well formed: for EVERY value (no assumption on the identity tags) and every point of
@@ -370,3 +372,73 @@ Example C10_ex_reentrant :
   Some [([EArr 3; EAdd (DStr [111]%N); EAdd (DStr ex_s); ERef 2; EEnd], true);
         ([EArr 1; EAdd (DStr ex_s); EEnd], true)].
 Proof. vm_compute. reflexivity. Qed.
+
+
+(* ---- object INSTANCES (Model/SerStruct.v): values built by the constructor of an Object type and the wrappers of Go
+   structs registered through the Reflector.  The stream holds the entries of InitHash(); the consumer allocates an
+   instance and calls InitFromHash. ---- *)
+
+(* what the init hash leaves out is exactly the attributes that hold their declared default - wherever they sit *)
+Theorem C10_init_hash_drops_defaults_only :
+  forall (payload : Type) (l : list (attr payload)) (a : attr payload),
+    In a (init_attrs l) <-> In a l /\ a_isdef a = false.
+Proof. exact @init_attrs_spec. Qed.
+Print Assumptions C10_init_hash_drops_defaults_only.
+
+(* the constructor from the init hash (a missing attribute receives its declared default) rebuilds ALL attribute
+   values; hypotheses as for C10_trim_fill, checked on every instance of the correspondence run *)
+Theorem C10_init_hash_fill :
+  forall (payload : Type) (l : list (attr payload)) (ds : list (decl payload)),
+    Forall2 (fun a d => d_name d = a_name a /\ isdef_sound a d) l ds ->
+    NoDup (map a_name l) ->
+    fill ds (given_of (init_attrs l)) = Ok (map (fun a => erase (a_val a)) l).
+Proof. exact @init_attrs_fill. Qed.
+Print Assumptions C10_init_hash_fill.
+
+(* PositionalFromHash trims the trailing default-valued optional attributes again; setValues (Go struct) / Get
+   (attributeSlice) gives every position beyond the short slice its declared default: together they are the
+   identity on what fill computed, for EVERY attribute list, hash and RequiredCount.  veq = Value.Equals of the
+   consumer, of which only soundness is used. *)
+Theorem C10_set_values_undoes_trim :
+  forall (payload : Type) (veq : @pvalue payload -> @pvalue payload -> bool),
+    (forall a b, veq a b = true -> a = b) ->
+    forall (req : nat) (ds : list (decl payload)) given vs,
+      fill ds given = Ok vs -> init_from_hash veq req ds given = Ok vs.
+Proof. exact @init_from_hash_is_fill. Qed.
+Print Assumptions C10_set_values_undoes_trim.
+
+(* end to end under every option with rich_data and every capability: serialize, collect, deserialize, allocate,
+   InitFromHash = the fields of the rebuilt instance are the attribute values (Go struct: the fields) of the original *)
+Theorem C10_struct_roundtrip :
+  forall (payload : Type) (to_s : str -> payload -> str) (of_s : str -> str -> option payload)
+         (veq : @pvalue payload -> @pvalue payload -> bool),
+    (forall tn p, of_s tn (to_s tn p) = Some p) ->
+    (forall a b, veq a b = true -> a = b) ->
+    forall (o : opts) (c : caps) id ty req (l : list (attr payload)) disp (ds : list (decl payload)),
+      rich_data o = true ->
+      wf_rich (VObjS id ty l disp) -> rt_ok to_s (env_of o c) (VObjS id ty l disp) = true ->
+      Forall2 (fun a d => d_name d = a_name a /\ isdef_sound a d) l ds ->
+      NoDup (map a_name l) ->
+      bind (roundtrip to_s of_s o c (VObjS id ty l disp)) (fun p => init_from_hash veq req ds (pobj_attrs p))
+        = Ok (map (fun a => erase (a_val a)) l).
+Proof. exact @struct_roundtrip. Qed.
+Print Assumptions C10_struct_roundtrip.
+
+(* the Endpoint of the seeded change C10-m9: {host (required), port => 8080, scheme => 'https'}.  With the port
+   given and the scheme at its default the stream holds host and port only; the consumer's positional slice is
+   [host, port] and the third field receives 'https'. *)
+Definition ex_ep_attrs : list (attr str) :=
+  [mkattr [104]%N (VStr [97]%N) false; mkattr [112]%N (VInt 80) false; mkattr [115]%N (VStr [104; 116]%N) true].
+Definition ex_ep_decls : list (decl str) :=
+  [mkdecl [104]%N None; mkdecl [112]%N (Some (PInt 8080)); mkdecl [115]%N (Some (PStr [104; 116]%N))].
+Definition ex_veq (a b : @pvalue str) : bool :=
+  match a, b with PInt x, PInt y => Z.eqb x y | PStr x, PStr y => str_eqb x y | _, _ => false end.
+Example C10_ex_struct :
+  map a_name (init_attrs ex_ep_attrs) = [[104]%N; [112]%N]
+  /\ positional_from_hash ex_veq 1 ex_ep_decls (given_of (init_attrs ex_ep_attrs)) = Ok [PStr [97]%N; PInt 80]
+  /\ init_from_hash ex_veq 1 ex_ep_decls (given_of (init_attrs ex_ep_attrs)) = Ok [PStr [97]%N; PInt 80; PStr [104; 116]%N]
+  /\ bind (roundtrip (fun _ p => p) (fun _ s => Some s) (mkopts true true 2) (mkcaps true true 0)
+             (VObjS 1 (VStr [69]%N) ex_ep_attrs []))
+          (fun p => init_from_hash ex_veq 1 ex_ep_decls (pobj_attrs p))
+     = Ok [PStr [97]%N; PInt 80; PStr [104; 116]%N].
+Proof. repeat split; vm_compute; reflexivity. Qed.
